@@ -97,6 +97,25 @@ func contentTokens(text string) []string {
 			}
 		}
 	}
+	// a relationship type repeated inside one `[:A|B|A]` list is stored once (graph.Kinds.Add): same meaning
+	for k := 0; k < len(ns); k++ {
+		if norm(k) == "[" && k > 0 && norm(k-1) == "-" {
+			seen := map[string]bool{}
+			inKinds := false
+			for j := k + 1; j < len(ns) && norm(j) != "]" && norm(j) != "{" && norm(j) != "*"; j++ {
+				switch x := norm(j); {
+				case x == ":":
+					inKinds = true
+				case x == "|":
+				case inKinds:
+					if seen[x] {
+						drop[ns[j]] = true
+					}
+					seen[x] = true
+				}
+			}
+		}
+	}
 	for i, t := range raw {
 		if drop[i] {
 			continue
@@ -877,7 +896,7 @@ func (c07Suite) Gen(rng *Rng, tier string, w *bufio.Writer, stats *Stats) {
 	}
 	ngen := 1500
 	if thorough {
-		ngen = 30000
+		ngen = 20000
 	}
 	for k := 0; k < ngen; k++ {
 		c := &c07Gen{g: g, rng: rng, rareW: 0, fuel: 40 + rng.Intn(260)}
